@@ -17,15 +17,15 @@ def describe(tier):
         "to_bytearray; to_pointer_arg; to_nplike / to_nparray; update_from_nplike with C / F / strided / reversed / non-native byte order sources with and without dtype conversion; "
         "update_from_xbuffer same context same kind / same context other kind / other context; the copy into fresh storage made by grow() / a growing allocate() from four allocator states (every byte of the old storage must travel); scalar and scalar-array helpers for the 10 dtypes) against a "
         "bytearray model on a poisoned background: exactly the requested bytes at the requested offsets, every other byte identical, capacity unchanged; "
-        "then the source / the result is mutated: extracted copies stay equal, typed views follow the buffer and vice versa." % (10 if tier == "quick" else 20),
-        bounds=dict(capacities="0..%d" % (10 if tier == "quick" else 20), dtypes=DTYPES, layouts=["C", "F", "strided", "reversed", "converted", "byteswapped"]),
+        "then the source / the result is mutated: extracted copies stay equal, typed views follow the buffer and vice versa." % (16 if tier == "quick" else 33),
+        bounds=dict(capacities="0..%d" % (16 if tier == "quick" else 33), dtypes=DTYPES, layouts=["C", "F", "strided", "reversed", "converted", "byteswapped"]),
         assumptions=["offsets and lengths inside the capacity (out-of-range requests are not part of the property)"],
         must_fire=["update_from_buffer", "update_from_native", "copy_to_native", "to_native", "to_bytearray", "to_nplike", "update_from_nplike", "update_from_xbuffer", "to_pointer_arg", "scalar", "scalar-array"],
     )
 
 
 def shards(tier, seed):
-    caps = range(0, 11 if tier == "quick" else 21)
+    caps = range(0, 17 if tier == "quick" else 34)
     out = [(k, c) for k in KINDS for c in caps]
     out += [(k, c, "grown") for k in KINDS for c in caps if c]
     out += [("big", k) for k in KINDS]
